@@ -649,4 +649,205 @@ theorem Mid_serveAll : ∀ (c : List (Loc × List Dyn)) (s : St) (all : List Loc
     · show (rest.foldl St.serveOneL (s.serveOneL e)).served = _
       rw [show e = (e.1, e.2) from rfl, k5, g4]; simp
 
+/-! ### refill, removal, feed -/
+
+theorem fill1_shape (p : Pool) : p.fill1.shape = p.shape := rfl
+
+theorem fillN_shape : ∀ (m : Nat) (p : Pool), (Pool.fillN m p).shape = p.shape := by
+  intro m
+  induction m with
+  | zero => intro p; rfl
+  | succ m ih => intro p; show (Pool.fillN m p.fill1).shape = _; rw [ih]; rfl
+
+theorem refill_shape (p : Pool) : p.refill.shape = p.shape := by
+  unfold Pool.refill
+  simp only
+  rw [fillN_shape]; rfl
+
+theorem mem_dynOffs (ls : List Loc) (j : Nat) : j ∈ dynOffs ls ↔ Loc.dyn j ∈ ls := by
+  induction ls with
+  | nil => simp [dynOffs]
+  | cons l rest ih =>
+    cases l with
+    | win k i => simp [dynOffs, ih]
+    | dyn i => simp [dynOffs, ih]
+    | out => simp [dynOffs, ih]
+
+theorem Mid.toInv {s : St} {all : List Loc} (h : Mid s [] all) (hq : ∀ (k : Nat) p, s.pools[k]? = some p → PQuiet p)
+    (hno : ∀ sl, sl ∈ s.dyn.slots → sl.req ≠ none) : Inv s :=
+  ⟨hq, ⟨h.dyn, hno⟩, h.ok, h.ledger, h.nodup⟩
+
+/-- End of a pass: every window is refilled, every hole of the dynamic region is closed, and the FIFOs are served
+    as far as slots and the receive quota allow. -/
+theorem Mid_finish {s : St} {all : List Loc} (h : Mid s [] all) (hasc : (dynOffs all).Pairwise (fun a b => a < b)) :
+    Inv (s.finishL all) ∧ Static s (s.finishL all) ∧ (s.finishL all).issued = s.issued ∧
+    (s.finishL all).served = s.served ∧ ¬ (s.finishL all).dyn.starved ∧
+    (∃ a b, s.dyn.sendq = a ++ (s.finishL all).dyn.sendq ∧ s.dyn.recvq = b ++ (s.finishL all).dyn.recvq) := by
+  have hfin : ∀ sl, sl ∈ s.dyn.slots → sl.fin = false := by
+    intro sl hsl
+    obtain ⟨j, hj⟩ := List.getElem?_of_mem hsl
+    cases hf : sl.fin with
+    | false => rfl
+    | true => exact absurd (h.u2 j sl hj hf).1 (by simp)
+  have hholes : ∀ (i : Nat) sl, s.dyn.slots[i]? = some sl → sl.req = none → i ∈ (dynOffs all).reverse := by
+    intro i sl hi hr
+    rw [List.mem_reverse, mem_dynOffs]
+    exact h.u3 i sl hi hr
+  have hpw : (dynOffs all).reverse.Pairwise (fun a b => a > b) := by
+    rw [List.pairwise_reverse]; exact hasc
+  obtain ⟨r1, r2, r3, r4, r5, r6, r7⟩ := DInv_removeAll _ s.dyn h.dyn hfin hpw hholes
+  obtain ⟨f1, f2, f3, f4, f5, ⟨a, b, f6, f7⟩, f8⟩ := DInv_feed s.dyn.cap _ r1
+  refine ⟨⟨?_, f1, h.ok, ?_, h.nodup⟩, ⟨?_, f3.trans r3, f4.trans r4, f5.trans r5⟩, rfl, rfl, ?_, ⟨a, b, ?_, ?_⟩⟩
+  · intro k p' hk
+    have hk' : (s.pools.map Pool.refill)[k]? = some p' := hk
+    rw [List.getElem?_map] at hk'
+    cases hp : s.pools[k]? with
+    | none => rw [hp] at hk'; cases hk'
+    | some p =>
+      rw [hp] at hk'; simp at hk'
+      rw [← hk']
+      refine (PQuiet_refill (h.pools k p hp) ?_).1
+      intro r hr
+      cases ha : p.act.getD r true with
+      | true => rfl
+      | false =>
+        obtain ⟨_, _, hm⟩ := h.u1 k p r hp hr ha
+        simp at hm
+  · show (((s.dyn.removeAll (dynOffs all).reverse).feed s.dyn.cap).refs ++ servedDyn s).Perm s.issued
+    exact (List.Perm.append_right _ (f2.trans r2)).trans h.ledger
+  · show (s.pools.map Pool.refill).map Pool.shape = s.pools.map Pool.shape
+    rw [List.map_map]
+    congr 1
+    funext p
+    exact refill_shape p
+  · apply f8
+    rw [r4]; omega
+  · rw [← r6]; exact f6
+  · rw [← r7]; exact f7
+
+/-! ### the three kinds of moves -/
+
+/-- Simple description of what `MPI_Testsome` may report in a state between passes. -/
+def Reportable (s : St) : Loc → Prop
+  | .win k j => ∃ p, s.pools[k]? = some p ∧ j < p.t
+  | .dyn j => j < s.dyn.slots.length
+  | .out => False
+
+theorem Inv.live {s : St} (h : Inv s) {l : Loc} (hl : Reportable s l) : LiveNow s l := by
+  cases l with
+  | win k j =>
+    obtain ⟨p, hk, hj⟩ := hl
+    have hq := h.pools k p hk
+    have hjl : j < p.win.length := by rw [hq.inv.win_len]; exact hj
+    have hsl := List.getElem?_eq_getElem hjl
+    rcases hq.inv.core.slots j _ hsl with h0 | ⟨r, hr, he⟩
+    · exact absurd h0 (hq.full _ (List.getElem_mem hjl))
+    · exact ⟨p, r, hk, hr, by rw [hsl, he], hq.active r hr⟩
+  | dyn j =>
+    have hsl := List.getElem?_eq_getElem hl
+    exact ⟨_, hsl, h.dyn.live _ (List.getElem_mem hl)⟩
+  | out => exact hl
+
+theorem completes_frame (ls : List Loc) (s : St) :
+    (ls.foldl St.completeL s).issued = s.issued ∧ (ls.foldl St.completeL s).served = s.served := by
+  induction ls generalizing s with
+  | nil => exact ⟨rfl, rfl⟩
+  | cons l rest ih =>
+    show (rest.foldl St.completeL (s.completeL l)).issued = _ ∧ (rest.foldl St.completeL (s.completeL l)).served = _
+    obtain ⟨a, b⟩ := ih (s.completeL l)
+    rw [a, b]; cases l <;> exact ⟨rfl, rfl⟩
+
+/-- One pass of the progress loop keeps the invariant. -/
+theorem Inv_iterL {s : St} (h : Inv s) (c : List (Loc × List Dyn))
+    (hnd : (c.map (·.1)).Nodup) (hrep : ∀ l, l ∈ c.map (·.1) → Reportable s l)
+    (hasc : (dynOffs (c.map (·.1))).Pairwise (fun a b => a < b))
+    (hfn : (c.flatMap (·.2)).Nodup) (hf : ∀ x, x ∈ c.flatMap (·.2) → x ∉ s.issued) :
+    Inv (s.iterL c) ∧ Static s (s.iterL c) ∧ (s.iterL c).issued = s.issued ++ c.flatMap (·.2) ∧
+    (∃ rs, rs.length = c.length ∧ (s.iterL c).served = s.served ++ rs) ∧ ¬ (s.iterL c).dyn.starved := by
+  obtain ⟨t1, t2⟩ := Mid_test (c.map (·.1)) s [] (c.map (·.1)) (h.toMid _) (fun l hl => hl) hnd
+    (fun l hl => h.live (hrep l hl))
+  rw [List.append_nil] at t1
+  obtain ⟨hiss1, hsv1⟩ := completes_frame (c.map (·.1)) s
+  obtain ⟨a1, a2, a3, rs, a4, a5⟩ := Mid_serveAll c _ _ t1 hnd hfn (by rw [hiss1]; exact hf)
+  obtain ⟨b1, b2, b3, b4, b5, _⟩ := Mid_finish a1 hasc
+  refine ⟨b1, (t2.trans a2).trans b2, ?_, ⟨rs, a4, ?_⟩, b5⟩
+  · show (St.finishL _ _).issued = _
+    rw [b3, a3, hiss1]
+  · show (St.finishL _ _).served = _
+    rw [b4, a5, hsv1]
+
+/-- Creation of a request between passes (put / get from the upper layer). -/
+theorem Inv_install {s : St} (h : Inv s) (x : Dyn) (hx : x ∉ s.issued) :
+    Inv (s.install x) ∧ Static s (s.install x) ∧ (s.install x).issued = s.issued ++ [x] ∧ (s.install x).served = s.served := by
+  obtain ⟨g1, g2, g3, g4⟩ := Mid_install (h.toMid []) x hx
+  refine ⟨g1.toInv h.pools ?_, g2, g3, g4⟩
+  intro sl hsl hr
+  obtain ⟨j, hj⟩ := List.getElem?_of_mem hsl
+  exact absurd (g1.u3 j sl hj hr) (by simp)
+
+/-! ### the initial state and the layout of the array -/
+
+/-- The windows tile `[b, e)` in tag order: `start_idx` of a tag = end of the previous window. -/
+def Contig : Nat → List Pool → Nat → Prop
+  | b, [], e => b = e
+  | b, p :: rest, e => p.base = b ∧ Contig (b + p.t) rest e
+
+theorem contig_mkPools : ∀ (cfg : List (Nat × Nat × Nat)) (b : Nat), Contig b (mkPools b cfg) (b + nstatic cfg) := by
+  intro cfg
+  induction cfg with
+  | nil => intro b; simp [mkPools, nstatic, Contig]
+  | cons e rest ih =>
+    intro b
+    obtain ⟨id, n, t⟩ := e
+    refine ⟨rfl, ?_⟩
+    have := ih (b + t)
+    show Contig (b + t) (mkPools (b + t) rest) (b + (t + nstatic rest))
+    rw [← Nat.add_assoc]; exact this
+
+theorem contig_congr : ∀ (ps qs : List Pool) (b e : Nat), qs.map Pool.shape = ps.map Pool.shape → Contig b ps e → Contig b qs e := by
+  intro ps
+  induction ps with
+  | nil =>
+    intro qs b e h hc
+    cases qs with
+    | nil => exact hc
+    | cons _ _ => simp at h
+  | cons p rest ih =>
+    intro qs b e h hc
+    cases qs with
+    | nil => simp at h
+    | cons q qrest =>
+      simp only [List.map_cons, List.cons.injEq] at h
+      obtain ⟨h1, h2⟩ := h
+      simp only [Pool.shape, Prod.mk.injEq] at h1
+      obtain ⟨_, _, ht, hb⟩ := h1
+      exact ⟨hb.trans hc.1, by rw [ht]; exact ih qrest _ e h2 hc.2⟩
+
+theorem mkPools_get : ∀ (cfg : List (Nat × Nat × Nat)) (b k : Nat) (p : Pool), (mkPools b cfg)[k]? = some p →
+    ∃ id n t b', (id, n, t) ∈ cfg ∧ p = Pool.init id n t b' := by
+  intro cfg
+  induction cfg with
+  | nil => intro b k p h; simp [mkPools] at h
+  | cons e rest ih =>
+    intro b k p h
+    obtain ⟨id, n, t⟩ := e
+    cases k with
+    | zero =>
+      simp [mkPools] at h
+      exact ⟨id, n, t, b, by simp, h.symm⟩
+    | succ k' =>
+      simp [mkPools] at h
+      obtain ⟨id', n', t', b', hm, hp⟩ := ih (b + t) k' p h
+      exact ⟨id', n', t', b', by simp [hm], hp⟩
+
+theorem Inv_init (cap quota : Nat) (cfg : List (Nat × Nat × Nat))
+    (hcfg : ∀ id n t, (id, n, t) ∈ cfg → 1 ≤ t ∧ t ≤ n) : Inv (init cap quota cfg) := by
+  refine ⟨?_, ⟨⟨by simp [init], ?_, rfl, by simp [init], by simp [init], by simp [init]⟩, by simp [init]⟩, rfl, ?_, by simp [init]⟩
+  · intro k p hk
+    obtain ⟨id, n, t, b', hm, hp⟩ := mkPools_get cfg 0 k p hk
+    obtain ⟨h1, h2⟩ := hcfg id n t hm
+    rw [hp]; exact PQuiet_init id n t b' h1 h2
+  · intro j sl hj; simp [init] at hj
+  · simp [init, DynR.refs, heldOf, servedDyn]
+
 end ParsecVerif.CommEngine
